@@ -4,7 +4,10 @@
 //
 // Case line:   <input> <derived> <observation>
 //
-//	input       (match <cf> <obj>) | (filter <cf>|nil (<obj>...))
+//	input       (match <cf> <obj> [<zone>]) | (filter <cf>|nil (<obj>...)) | (seq <cf> (<obj>...))
+//	            zone: the bounds of the query are put into that zone (same instants); seq: ONE query
+//	            value and ONE slice of objects through Filter, Match on every object, Filter on the
+//	            first half, Filter again, then the same calls from four goroutines at once
 //	obj         (ics <hex text>) | (nil) | (nilcomp)
 //	cf          (cf <name> <nd> <start> <end> (<pf>...) (<cf>...))      start/end: - or Unix seconds
 //	pf          (pf <name> <nd> <start> <end> <tm> (<af>...))           tm: - or (tm <text> <negate>)
@@ -23,6 +26,12 @@
 //	            (DTSTART + k*INTERVAL*period, k < COUNT, up to the horizon, minus the EXDATEs)
 //	observation (ok 0|1) | (err) | (panic)                       for match
 //	            (ok (<index>...) <unmodified 0|1>) | (err) | (panic)   for filter
+//	            (modified query|object)   the call changed one of its arguments (match, filter)
+//	            (crash)   the process died in the call (made in a child process for long lists with
+//	                      an object without data, where Filter is expected to panic)
+//	            (steps <filter obs> (<match obs>...) <filter obs, first half> <filter obs, again>
+//	                   <result of step 1 still what it was> <the concurrent calls answered the same>
+//	                   <query and objects unchanged>)               for seq
 //
 // Replay re-executes the <input> of each given line.
 package main
@@ -30,7 +39,9 @@ package main
 import (
 	"flag"
 	"fmt"
+	"io"
 	"os"
+	osexec "os/exec"
 	"reflect"
 	"runtime"
 	"sort"
@@ -225,8 +236,8 @@ func durText(d int64) string {
 
 // ---------------------------------------------------------------- derived trees
 
-func timeSx(p *ical.Prop) string {
-	t, err := p.DateTime(time.UTC)
+func timeSx(p *ical.Prop, loc *time.Location) string {
+	t, err := p.DateTime(loc)
 	if err != nil {
 		return "b"
 	}
@@ -374,15 +385,15 @@ var ofMu sync.Mutex
 
 const horizonMargin = 60 * 86400
 
-func recSx(c *ical.Component, trs []trange) string {
-	rset, err := c.RecurrenceSet(time.UTC)
+func recSx(c *ical.Component, trs []trange, loc *time.Location) string {
+	rset, err := c.RecurrenceSet(loc)
 	if err != nil {
 		return "e"
 	}
 	if rset == nil {
 		return "n"
 	}
-	dt, _ := c.Props.DateTime(ical.PropDateTimeStart, time.UTC)
+	dt, _ := c.Props.DateTime(ical.PropDateTimeStart, loc)
 	// a rule that does not end is followed until well after every bound of the query and DTSTART
 	horizon := dt.Unix()
 	for _, tr := range trs {
@@ -446,7 +457,7 @@ func recSx(c *ical.Component, trs []trange) string {
 		for _, i := range insts {
 			excluded := false
 			for _, xp := range c.Props[ical.PropExceptionDates] {
-				if x, err := xp.DateTime(time.UTC); err == nil && x.Unix() == i {
+				if x, err := xp.DateTime(loc); err == nil && x.Unix() == i {
 					excluded = true
 				}
 			}
@@ -477,7 +488,7 @@ func recSx(c *ical.Component, trs []trange) string {
 	return hx.L("r", hx.L(sl...), hz, hx.L(il...))
 }
 
-func treeSx(c *ical.Component, trs []trange) string {
+func treeSx(c *ical.Component, trs []trange, loc *time.Location) string {
 	names := make([]string, 0, len(c.Props))
 	for n := range c.Props {
 		names = append(names, n)
@@ -502,14 +513,14 @@ func treeSx(c *ical.Component, trs []trange) string {
 				params = append(params, hx.L(items...))
 			}
 			// the map key is what Props.Get looks up; go-ical stores a property under its Name
-			props = append(props, hx.L("p", hx.S(n), hx.L(params...), hx.S(p.Value), timeSx(p), durSx(p)))
+			props = append(props, hx.L("p", hx.S(n), hx.L(params...), hx.S(p.Value), timeSx(p, loc), durSx(p)))
 		}
 	}
 	var children []string
 	for _, ch := range c.Children {
-		children = append(children, treeSx(ch, trs))
+		children = append(children, treeSx(ch, trs, loc))
 	}
-	return hx.L("c", hx.S(c.Name), hx.L(props...), recSx(c, trs), hx.L(children...))
+	return hx.L("c", hx.S(c.Name), hx.L(props...), recSx(c, trs, loc), hx.L(children...))
 }
 
 // dump renders everything of a calendar object that a caller could see modified.
@@ -582,11 +593,56 @@ func buildObj(x hx.Sx, idx int) object {
 	return o
 }
 
-func objTree(o *object, trs []trange) string {
+func objTree(o *object, trs []trange, loc *time.Location) string {
 	if o.co.Data == nil || o.co.Data.Component == nil {
 		return "nil"
 	}
-	return treeSx(o.co.Data.Component, trs)
+	return treeSx(o.co.Data.Component, trs, loc)
+}
+
+// inLoc puts every bound of the query into the zone: the instants are the same, but match.go
+// hands the zone of a bound to go-ical, which reads floating times and DATE values in it.
+func inLoc(f *caldav.CompFilter, loc *time.Location) {
+	mv := func(t *time.Time) {
+		if !t.IsZero() {
+			*t = t.In(loc)
+		}
+	}
+	mv(&f.Start)
+	mv(&f.End)
+	for i := range f.Props {
+		mv(&f.Props[i].Start)
+		mv(&f.Props[i].End)
+	}
+	for i := range f.Comps {
+		inLoc(&f.Comps[i], loc)
+	}
+}
+
+var zoneCache sync.Map
+
+func zoneOf(name string) *time.Location {
+	if l, ok := zoneCache.Load(name); ok {
+		return l.(*time.Location)
+	}
+	l := loadZone(name)
+	zoneCache.Store(name, l)
+	return l
+}
+
+func loadZone(name string) *time.Location {
+	if strings.HasPrefix(name, "fixed") {
+		secs, err := strconv.Atoi(strings.TrimPrefix(name, "fixed"))
+		if err != nil {
+			panic("harness: bad zone " + name)
+		}
+		return time.FixedZone(name, secs)
+	}
+	loc, err := time.LoadLocation(name)
+	if err != nil {
+		panic("harness: time zone database: " + err.Error())
+	}
+	return loc
 }
 
 func runMatch(f caldav.CompFilter, co *caldav.CalendarObject) (obs string) {
@@ -602,7 +658,13 @@ func runMatch(f caldav.CompFilter, co *caldav.CalendarObject) (obs string) {
 	return hx.L("ok", hx.B(ok))
 }
 
-func runFilter(q *caldav.CalendarQuery, cos []caldav.CalendarObject) (obs string) {
+func runFilter(q *caldav.CalendarQuery, cos []caldav.CalendarObject) string {
+	obs, _ := runFilterRes(q, cos)
+	return obs
+}
+
+// runFilterRes also hands out what Filter returned (kept by the sequences and looked at again later)
+func runFilterRes(q *caldav.CalendarQuery, cos []caldav.CalendarObject) (obs string, res []caldav.CalendarObject) {
 	defer func() {
 		if r := recover(); r != nil {
 			obs = "(panic)"
@@ -616,7 +678,7 @@ func runFilter(q *caldav.CalendarQuery, cos []caldav.CalendarObject) (obs string
 	}
 	out, err := caldav.Filter(q, cos)
 	if err != nil {
-		return "(err)"
+		return "(err)", nil
 	}
 	unmod := true
 	for i := range cos {
@@ -637,31 +699,88 @@ func runFilter(q *caldav.CalendarQuery, cos []caldav.CalendarObject) (obs string
 			unmod = false
 		}
 	}
-	return hx.L("ok", hx.L(idx...), hx.B(unmod))
+	return hx.L("ok", hx.L(idx...), hx.B(unmod)), out
 }
 
-// exec runs one input; "" when an object's text does not decode.
-func exec(in string) string {
+var recovered int64
+
+// isolate: this process hands the calls that may kill it to a child (false in the child)
+var isolate = true
+
+func hasNilObject(l hx.Sx) bool {
+	for _, o := range l.List {
+		if h := o.Head(); h == "nil" || h == "nilcomp" {
+			return true
+		}
+	}
+	return false
+}
+
+// obsFromChild re-executes the input in a child process (-one: input on stdin, case line on
+// stdout) and returns its observation, or (crash) when the child died.
+func obsFromChild(in string) string {
+	cmd := osexec.Command(os.Args[0], "-one")
+	cmd.Stdin = strings.NewReader(in + "\n")
+	outb, err := cmd.Output()
+	if err != nil {
+		return "(crash)"
+	}
+	items, perr := hx.Parse(strings.TrimSpace(string(outb)))
+	if perr != nil || len(items) != 3 {
+		return "(crash)"
+	}
+	return items[2].String()
+}
+
+// exec runs one input; "" when an object's text does not decode (or go-ical panics on it).
+func exec(in string) (out string) {
+	defer func() {
+		// only calls into go-ical made to prepare the inputs can end up here: every call into
+		// /repo runs under its own recover and is an observation
+		if r := recover(); r != nil {
+			ofMu.Lock()
+			recovered++
+			ofMu.Unlock()
+			fmt.Fprintf(os.Stderr, "c06: recovered while preparing an input: %v\n", r)
+			out = ""
+		}
+	}()
 	x := hx.MustParse(in)[0]
 	switch x.Head() {
 	case "match":
+		// (match <cf> <obj> [<zone of the bounds>])
 		a := x.Args()
+		loc := time.UTC
+		if len(a) > 2 {
+			loc = zoneOf(a[2].Str())
+		}
 		f := parseCF(a[0])
+		fcopy := parseCF(a[0])
+		inLoc(&f, loc)
+		inLoc(&fcopy, loc)
 		o := buildObj(a[1], 0)
 		if o.bad {
 			return ""
 		}
 		var trs []trange
 		collectRanges(f, &trs)
-		tree := objTree(&o, trs)
+		tree := objTree(&o, trs, loc)
+		before, orig := dumpObj(&o.co), o.co
 		obs := runMatch(f, &o.co)
+		// the arguments are the caller's: Match must leave them as they were
+		if !reflect.DeepEqual(f, fcopy) {
+			obs = "(modified query)"
+		} else if dumpObj(&o.co) != before || o.co.Data != orig.Data || !reflect.DeepEqual(o.co, orig) {
+			obs = "(modified object)"
+		}
 		return in + " " + hx.L("trees", tree) + " " + obs
 	case "filter":
 		a := x.Args()
-		var q *caldav.CalendarQuery
+		var q, qcopy *caldav.CalendarQuery
 		var trs []trange
 		if a[0].IsList {
 			q = &caldav.CalendarQuery{CompFilter: parseCF(a[0])}
+			qcopy = &caldav.CalendarQuery{CompFilter: parseCF(a[0])}
 			collectRanges(q.CompFilter, &trs)
 		}
 		var cos []caldav.CalendarObject
@@ -671,10 +790,94 @@ func exec(in string) string {
 			if o.bad {
 				return ""
 			}
-			trees = append(trees, objTree(&o, trs))
+			trees = append(trees, objTree(&o, trs, time.UTC))
 			cos = append(cos, o.co)
 		}
-		obs := runFilter(q, cos)
+		obs := ""
+		if isolate && len(cos) >= 64 && hasNilObject(a[1]) {
+			// Filter is expected to panic here.  Should it do so in a goroutine of its own the
+			// caller cannot recover and the process dies: let a child process make the call
+			obs = obsFromChild(in)
+		} else {
+			obs = runFilter(q, cos)
+			if !reflect.DeepEqual(q, qcopy) {
+				obs = "(modified query)"
+			}
+		}
+		return in + " " + hx.L(trees...) + " " + obs
+	case "seq":
+		// (seq <cf> (<obj>...)): ONE query value and ONE slice of objects through a sequence of calls
+		a := x.Args()
+		q := &caldav.CalendarQuery{CompFilter: parseCF(a[0])}
+		qcopy := &caldav.CalendarQuery{CompFilter: parseCF(a[0])}
+		var trs []trange
+		collectRanges(q.CompFilter, &trs)
+		var cos []caldav.CalendarObject
+		trees := []string{"trees"}
+		for i, ox := range a[1].List {
+			o := buildObj(ox, i)
+			if o.bad {
+				return ""
+			}
+			trees = append(trees, objTree(&o, trs, time.UTC))
+			cos = append(cos, o.co)
+		}
+		before := make([]string, len(cos))
+		for i := range cos {
+			before[i] = dumpObj(&cos[i])
+		}
+		matches := func() []string {
+			var l []string
+			for i := range cos {
+				l = append(l, runMatch(q.CompFilter, &cos[i]))
+			}
+			return l
+		}
+		// 1. Filter; its result is kept
+		o1, r1 := runFilterRes(q, cos)
+		kept1 := append([]caldav.CalendarObject(nil), r1...)
+		// 2. Match on every object, same query value
+		ms := matches()
+		// 3. Filter on the first half, 4. Filter on everything again
+		o2 := runFilter(q, cos[:len(cos)/2])
+		o3 := runFilter(q, cos)
+		// the result of step 1 is still what it was
+		kept := len(kept1) == len(r1)
+		for i := range r1 {
+			if i < len(kept1) && (r1[i].Data != kept1[i].Data || !reflect.DeepEqual(r1[i], kept1[i])) {
+				kept = false
+			}
+		}
+		// 5. the same calls from four goroutines at once, on the same values
+		same := true
+		var wg sync.WaitGroup
+		var smu sync.Mutex
+		for g := 0; g < 4; g++ {
+			wg.Add(1)
+			go func(g int) {
+				defer wg.Done()
+				ok := true
+				if g%2 == 0 {
+					ok = runFilter(q, cos) == o1 && strings.Join(matches(), " ") == strings.Join(ms, " ")
+				} else {
+					ok = strings.Join(matches(), " ") == strings.Join(ms, " ") && runFilter(q, cos) == o1
+				}
+				if !ok {
+					smu.Lock()
+					same = false
+					smu.Unlock()
+				}
+			}(g)
+		}
+		wg.Wait()
+		// the arguments are as they were
+		args := reflect.DeepEqual(q, qcopy)
+		for i := range cos {
+			if dumpObj(&cos[i]) != before[i] {
+				args = false
+			}
+		}
+		obs := hx.L("steps", o1, hx.L(ms...), o2, o3, hx.B(kept), hx.B(same), hx.B(args))
 		return in + " " + hx.L(trees...) + " " + obs
 	}
 	panic("harness: bad input " + in)
@@ -1500,6 +1703,9 @@ func randomPart(n int, emit func(string)) {
 			q = cfSx(g.randCF(0, false))
 		}
 		emit(hx.L("filter", q, hx.L(objs...)))
+		if q != "nil" && i%2 == 0 {
+			emit(hx.L("seq", q, hx.L(objs...)))
+		}
 	}
 }
 
@@ -1543,6 +1749,249 @@ func filterUniverse(emit func(string)) {
 	rec(nil)
 }
 
+// ---- generator audit (notes/generator-audit.md): sizes, sequences, zones of the bounds
+
+func icsObj(c gcomp) string { return hx.L("ics", hx.S(c.text())) }
+
+// Filter over collections of every size around the powers of two a batching or parallel
+// implementation would pick, the matching objects at the head, in the middle, only the last one,
+// every one, none; a nil or unreadable object at the very end
+func sizesUniverse(thorough bool, emit func(string)) {
+	sizes := []int{0, 1, 2, 127, 128, 129, 255, 256, 257, 1000, 1009}
+	if thorough {
+		sizes = append(sizes, 63, 64, 65, 511, 512, 513, 1023, 1024, 1025, 4095, 4096, 4097)
+	}
+	yes := icsObj(cal(gcomp{name: "VEVENT", props: []gprop{P("SUMMARY", "a"), P("DTSTART", utc(gridBase)), P("DTEND", utc(gridBase+3600))}}))
+	no := icsObj(cal(gcomp{name: "VEVENT", props: []gprop{P("SUMMARY", "b"), P("DTSTART", utc(gridBase+10*86400))}}))
+	rec := icsObj(cal(gcomp{name: "VEVENT", props: []gprop{P("SUMMARY", "a"), P("DTSTART", utc(gridBase-86400-1800)), P("DURATION", "PT2H"), P("RRULE", "FREQ=DAILY;COUNT=2")}}))
+	bad := icsObj(cal(gcomp{name: "VEVENT", props: []gprop{P("SUMMARY", "a"), P("DTSTART", "garbage")}}))
+	byText := cfSx(CFn("VCALENDAR", false, nil, []caldav.CompFilter{{Name: "VEVENT", Props: []caldav.PropFilter{{Name: "SUMMARY", TextMatch: &caldav.TextMatch{Text: "a"}}}}}))
+	byRange := cfSx(eventFilter(trange{tAt(gridBase), tAt(gridBase + 3600)}))
+	for _, n := range sizes {
+		for pat := 0; pat < 8; pat++ {
+			if n == 0 && pat > 0 {
+				continue
+			}
+			objs := make([]string, n)
+			for i := range objs {
+				objs[i] = no
+				switch pat {
+				case 0: // head
+					if i == 0 {
+						objs[i] = yes
+					}
+				case 1: // middle
+					if i == n/2 {
+						objs[i] = yes
+					}
+				case 2: // only the last one
+					if i == n-1 {
+						objs[i] = yes
+					}
+				case 3: // every one
+					objs[i] = yes
+				case 4: // none
+				case 5: // every third, the last one a recurring event with a running instance
+					if i%3 == 0 {
+						objs[i] = yes
+					}
+					if i == n-1 {
+						objs[i] = rec
+					}
+				case 6: // the last one has no data: Filter panics
+					if i == n-1 {
+						objs[i] = "(nil)"
+					}
+				case 7: // the last one is unreadable under a time range: an error
+					if i == n-1 {
+						objs[i] = bad
+					}
+				}
+			}
+			l := hx.L(objs...)
+			emit(hx.L("filter", byText, l))
+			emit(hx.L("filter", byRange, l))
+			if pat == 3 {
+				emit(hx.L("filter", "nil", l))
+			}
+		}
+	}
+}
+
+// many components, properties, parameters and parameter values inside one object, the one that
+// decides at the head, in the middle or at the very end
+func bigObjects(thorough bool, emit func(string)) {
+	counts := []int{129, 1000}
+	if thorough {
+		counts = []int{63, 64, 65, 127, 128, 129, 255, 256, 257, 1000, 1009, 4097}
+	}
+	text := func(t string) *caldav.TextMatch { return &caldav.TextMatch{Text: t} }
+	for _, n := range counts {
+		for _, pos := range []int{0, n / 2, n - 1, -1} {
+			// n VEVENTs, one of them with SUMMARY:a; a VTODO at that position for is-not-defined
+			children := make([]gcomp, n)
+			for i := range children {
+				children[i] = gcomp{name: "VEVENT", props: []gprop{P("SUMMARY", "b")}}
+			}
+			if pos >= 0 {
+				children[pos] = gcomp{name: "VEVENT", props: []gprop{P("SUMMARY", "ab")}}
+			}
+			c := cal(children...)
+			emit(matchIn(CFn("VCALENDAR", false, nil, []caldav.CompFilter{{Name: "VEVENT", Props: []caldav.PropFilter{{Name: "SUMMARY", TextMatch: text("a")}}}}), c.text()))
+			if pos >= 0 {
+				c.children[pos] = gcomp{name: "VTODO"}
+			}
+			emit(matchIn(CFn("VCALENDAR", false, nil, []caldav.CompFilter{{Name: "VTODO", IsNotDefined: true}}), c.text()))
+			emit(matchIn(CFn("VCALENDAR", false, nil, []caldav.CompFilter{{Name: "VTODO"}, {Name: "VEVENT"}}), c.text()))
+			// one VEVENT with n SUMMARY (and n DTSTAMP) properties
+			props := make([]gprop, 0, 2*n)
+			for i := 0; i < n; i++ {
+				v, st := "b", utc(gridBase-7200)
+				if i == pos {
+					v, st = "ab", utc(gridBase)
+				}
+				props = append(props, P("SUMMARY", v), P("DTSTAMP", st))
+			}
+			ev := cal(gcomp{name: "VEVENT", props: props}).text()
+			emit(matchIn(CFn("VCALENDAR", false, nil, []caldav.CompFilter{{Name: "VEVENT", Props: []caldav.PropFilter{{Name: "SUMMARY", TextMatch: text("a")}}}}), ev))
+			emit(matchIn(CFn("VCALENDAR", false, nil, []caldav.CompFilter{{Name: "VEVENT", Props: []caldav.PropFilter{{Name: "DTSTAMP", Start: tAt(gridBase), End: tAt(gridBase + 1)}}}}), ev))
+			emit(matchIn(CFn("VCALENDAR", false, nil, []caldav.CompFilter{{Name: "VEVENT", Props: []caldav.PropFilter{{Name: "SUMMARY", TextMatch: &caldav.TextMatch{Text: "b", NegateCondition: true}}}}}), ev))
+			// one ATTENDEE with n parameters, and a PARTSTAT with n values
+			params := make([]gparam, n)
+			values := make([]string, n)
+			for i := range params {
+				params[i] = Q("X-P"+strconv.Itoa(i), "v")
+				values[i] = "b"
+			}
+			want := "X-NONE"
+			if pos >= 0 {
+				want = "X-P" + strconv.Itoa(pos)
+				values[pos] = "ab"
+			}
+			at := cal(gcomp{name: "VEVENT", props: []gprop{P("ATTENDEE", "x", append(params, Q("PARTSTAT", values...))...)}}).text()
+			for _, af := range []caldav.ParamFilter{{Name: want}, {Name: want, IsNotDefined: true}, {Name: "PARTSTAT", TextMatch: text("a")}} {
+				emit(matchIn(CFn("VCALENDAR", false, nil, []caldav.CompFilter{{Name: "VEVENT", Props: []caldav.PropFilter{{Name: "ATTENDEE", ParamFilter: []caldav.ParamFilter{af}}}}}), at))
+			}
+		}
+		// n levels of VALARM below one VEVENT: only the children of the VEVENT are in the scope
+		deep := gcomp{name: "VALARM", props: []gprop{P("SUMMARY", "a")}}
+		for i := 0; i < n && i < 300; i++ {
+			deep = gcomp{name: "VALARM", children: []gcomp{deep}}
+		}
+		dc := cal(gcomp{name: "VEVENT", children: []gcomp{deep}}).text()
+		for _, nd := range []bool{false, true} {
+			emit(matchIn(CFn("VCALENDAR", false, nil, []caldav.CompFilter{{Name: "VEVENT", Comps: []caldav.CompFilter{{Name: "VALARM", Comps: []caldav.CompFilter{{Name: "VALARM", Props: []caldav.PropFilter{{Name: "SUMMARY", IsNotDefined: nd}}}}}}}}), dc))
+		}
+	}
+}
+
+// long values and long texts in text-match, around the sizes of common buffers
+func longTexts(thorough bool, emit func(string)) {
+	lens := []int{0, 1, 63, 64, 65, 511, 512, 513, 1023, 1024, 1025, 4095, 4096, 4097, 32768}
+	if thorough {
+		lens = append(lens, 32767, 32769, 65535, 65536, 65537, 200000)
+	}
+	for _, n := range lens {
+		pad := strings.Repeat("x", n)
+		needle := "n" + strings.Repeat("y", n/2)
+		for vi, value := range []string{pad + "needle", "needle" + pad, pad, pad + needle, needle + pad, pad + needle[:len(needle)-1]} {
+			for _, tm := range []caldav.TextMatch{{Text: "needle"}, {Text: "needle", NegateCondition: true}, {Text: needle}, {Text: pad}} {
+				if vi >= 3 && tm.Text == "needle" {
+					continue
+				}
+				tm := tm
+				c := cal(gcomp{name: "VEVENT", props: []gprop{P("SUMMARY", value)}}).text()
+				emit(matchIn(CFn("VCALENDAR", false, nil, []caldav.CompFilter{{Name: "VEVENT", Props: []caldav.PropFilter{{Name: "SUMMARY", TextMatch: &tm}}}}), c))
+				// go-ical builds a parameter value byte by byte (quadratic): long ones only up to 4 KiB
+				// (thorough: 32 KiB)
+				if n <= 4097 || (thorough && n <= 32769) {
+					c = cal(gcomp{name: "VEVENT", props: []gprop{P("ATTENDEE", "m", Q("CN", value))}}).text()
+					emit(matchIn(CFn("VCALENDAR", false, nil, []caldav.CompFilter{{Name: "VEVENT", Props: []caldav.PropFilter{{Name: "ATTENDEE", ParamFilter: []caldav.ParamFilter{{Name: "CN", TextMatch: &tm}}}}}}), c))
+				}
+			}
+		}
+	}
+}
+
+// the bounds of the query in a zone other than UTC: the instants are the same; go-ical reads
+// floating times and DATE values in that zone (the harness derives the trees with it too)
+func zoneBounds(emit func(string)) {
+	date := Q("VALUE", "DATE")
+	events := [][]gprop{
+		{P("DTSTART", utc(gridBase+3600)), P("DTEND", utc(gridBase+7200))},
+		{P("DTSTART", "20200310T110000"), P("DURATION", "PT1H")},
+		{P("DTSTART", "20200310T110000", Q("TZID", "Europe/Berlin")), P("DTEND", "20200310T130000", Q("TZID", "Europe/Berlin"))},
+		{P("DTSTART", "20200310", date)},
+		{P("DTSTART", "20200309", date), P("DTEND", "20200311", date)},
+		{P("DTSTART", "20200309T110000"), P("DURATION", "PT1H"), P("RRULE", "FREQ=DAILY;COUNT=3")},
+		{P("DTSTART", "20200309", date), P("RRULE", "FREQ=DAILY;COUNT=2"), P("EXDATE", "20200309", date)},
+		{P("DTSTART", "20200308T200000", Q("TZID", "America/Los_Angeles")), P("RRULE", "FREQ=DAILY;COUNT=3")},
+		{P("DTSTAMP", "20200310T110000")},
+	}
+	for _, z := range []string{"America/Los_Angeles", "Asia/Kolkata", "Australia/Sydney", "fixed20700", "fixed-34200"} {
+		off := int64(0)
+		_, o := time.Unix(gridBase, 0).In(zoneOf(z)).Zone()
+		off = int64(o)
+		for ei, ev := range events {
+			text := cal(gcomp{name: "VEVENT", props: ev}).text()
+			// events 0, 2 and 7 state their times with Z or a TZID: no zone of the query matters
+			zoneFree := ei == 0 || ei == 2 || ei == 7
+			// the grid moved so that it lies around the local readings as well
+			for _, base := range []int64{gridBase, gridBase - off, dayBase - off - 3600} {
+				for _, tr := range gridRanges(base, 3600) {
+					if !zoneFree && (tr.s.IsZero() || tr.e.IsZero()) {
+						// match.go takes the zone for DTSTART from the start and the zone for DTEND
+						// from the end of the range; an absent bound is the zero time.Time, whose zone
+						// is UTC: with one bound absent a floating or DATE value is read in two
+						// different zones (notes/C06.md, "Generator audit") - outside the assumption
+						// that the bounds are UTC, not explored
+						continue
+					}
+					f := eventFilter(tr)
+					if ev[0].name == "DTSTAMP" {
+						f = CFn("VCALENDAR", false, nil, []caldav.CompFilter{{Name: "VEVENT", Props: []caldav.PropFilter{{Name: "DTSTAMP", Start: tr.s, End: tr.e}}}})
+					}
+					emit(hx.L("match", cfSx(f), hx.L("ics", hx.S(text)), hx.S(z)))
+				}
+			}
+		}
+	}
+}
+
+// sequences: one query value and one slice of objects through Filter, Match on every object,
+// Filter on a part, Filter again, and the same from four goroutines at once
+func seqUniverse(emit func(string)) {
+	ev := func(props ...gprop) string { return icsObj(cal(gcomp{name: "VEVENT", props: props})) }
+	objs := []string{
+		ev(P("SUMMARY", "a")), ev(P("SUMMARY", "b")),
+		icsObj(cal(gcomp{name: "VTODO", props: []gprop{P("SUMMARY", "a")}})),
+		ev(P("DTSTART", utc(gridBase)), P("DTEND", utc(gridBase+3600)), P("SUMMARY", "ab")),
+		ev(P("DTSTART", utc(gridBase-1800)), P("DURATION", "PT2H"), P("RRULE", "FREQ=DAILY;COUNT=2")),
+		ev(P("DTSTART", "garbage")),
+		ev(P("ATTENDEE", "x", Q("PARTSTAT", "a", "ab"))),
+	}
+	sum := func(t string, neg bool) caldav.CompFilter {
+		return CFn("VCALENDAR", false, nil, []caldav.CompFilter{{Name: "VEVENT", Props: []caldav.PropFilter{{Name: "SUMMARY", TextMatch: &caldav.TextMatch{Text: t, NegateCondition: neg}}}}})
+	}
+	queries := []string{
+		cfSx(CFn("VCALENDAR", false, nil, []caldav.CompFilter{{Name: "VEVENT"}})),
+		cfSx(CFn("VCALENDAR", false, nil, []caldav.CompFilter{{Name: "VEVENT", IsNotDefined: true}})),
+		cfSx(sum("a", false)), cfSx(sum("a", true)),
+		cfSx(eventFilter(trange{tAt(gridBase), tAt(gridBase + 3600)})),
+		cfSx(eventFilter(trange{tAt(gridBase + 3600), time.Time{}})),
+		cfSx(CFn("VCALENDAR", false, nil, []caldav.CompFilter{{Name: "VEVENT", Props: []caldav.PropFilter{{Name: "ATTENDEE", ParamFilter: []caldav.ParamFilter{{Name: "PARTSTAT", TextMatch: &caldav.TextMatch{Text: "ab"}}}}}}})),
+	}
+	for _, q := range queries {
+		for i := range objs {
+			for j := range objs {
+				emit(hx.L("seq", q, hx.L(objs[i], objs[j], objs[(i+j+1)%len(objs)], objs[i])))
+			}
+		}
+		emit(hx.L("seq", q, hx.L(append(append([]string{}, objs...), "(nil)")...)))
+		emit(hx.L("seq", q, hx.L()))
+	}
+}
+
 // a few hand-written objects: the RFC 4791 appendix B samples used by the repository's own test
 func samples(emit func(string)) {
 	event3 := "BEGIN:VCALENDAR\r\nVERSION:2.0\r\nPRODID:-//Example Corp.//CalDAV Client//EN\r\nBEGIN:VEVENT\r\n" +
@@ -1568,7 +2017,14 @@ func samples(emit func(string)) {
 func main() {
 	out := flag.String("out", "", "output file")
 	replay := flag.String("replay", "", "file of case lines to re-run (inputs are re-executed)")
+	one := flag.Bool("one", false, "child mode: one input on stdin, its case line on stdout")
 	flag.Parse()
+	if *one {
+		isolate = false
+		data, _ := io.ReadAll(os.Stdin)
+		fmt.Println(exec(strings.TrimSpace(string(data))))
+		return
+	}
 	sink := hx.NewSink(*out)
 	defer sink.Close()
 
@@ -1612,10 +2068,15 @@ func main() {
 	timeGrid(emit)
 	recurringGrid(emit)
 	tzGrid(emit)
+	zoneBounds(emit)
+	seqUniverse(emit)
+	sizesUniverse(thorough, emit)
+	bigObjects(thorough, emit)
+	longTexts(thorough, emit)
 	filterUniverse(emit)
 	structuralUniverse(thorough, emit)
 	randomPart(nRandom, emit)
 	close(inputs)
 	wg.Wait()
-	fmt.Fprintf(os.Stderr, "c06: %d cases, %d inputs dropped (text go-ical does not decode), %d recurring components outside the bounded family\n", sink.N, dropped, outsideFamily)
+	fmt.Fprintf(os.Stderr, "c06: %d cases, %d inputs dropped (text go-ical does not decode; %d of them by a panic of go-ical), %d recurring components outside the bounded family\n", sink.N, dropped, recovered, outsideFamily)
 }
